@@ -58,9 +58,11 @@ Print Assumptions segmented_eq_unsegmented.
 (* ---- SyncAdChain ---- *)
 
 (* which stop point and which depth limit apply: the Go statements of SyncAdChain, in
-   their order, compute exactly the documented decision tables *)
+   their order, compute exactly the documented decision tables; the latest sync that acts
+   as default stop point is GetLatestSync's: the recorded value, else what the
+   WithLastKnownSync function knows ([eff_latest]) *)
 Theorem option_resolution :
-  (forall st a, go_stop st a = stop_table (s_latest st) (a_stop a) (a_resync a)) /\
+  (forall cfg st a, go_stop cfg st a = stop_table (eff_latest cfg st) (a_stop a) (a_resync a)) /\
   (forall cfg a stop,
      go_depth cfg a stop = depth_table (c_ads_depth cfg) (c_first_depth cfg) (a_depth a) stop).
 Proof. split; [exact go_stop_table|exact go_depth_table]. Qed.
@@ -78,7 +80,7 @@ Theorem sync_ad_chain_meets_spec :
     chain_wf EPrev extra ch = true -> c_strict cfg = true ->
     resolve_hook cfg (a_hook a) = HNominate ->
     the_head a = Some (head, queried) -> In head ch ->
-    let stop := stop_table (s_latest st) (a_stop a) (a_resync a) in
+    let stop := stop_table (eff_latest cfg st) (a_stop a) (a_resync a) in
     let lim := depth_table (c_ads_depth cfg) (c_first_depth cfg) (a_depth a) stop in
     let seg := segment ch head stop lim in
     avail pub (s_store st) seg = true ->
@@ -97,7 +99,7 @@ Theorem reported_once_newest_first :
     chain_wf EPrev extra ch = true -> c_strict cfg = true ->
     resolve_hook cfg (a_hook a) = HNominate ->
     the_head a = Some (head, queried) -> In head ch ->
-    let stop := stop_table (s_latest st) (a_stop a) (a_resync a) in
+    let stop := stop_table (eff_latest cfg st) (a_stop a) (a_resync a) in
     let lim := depth_table (c_ads_depth cfg) (c_first_depth cfg) (a_depth a) stop in
     avail pub (s_store st) (segment ch head stop lim) = true ->
     let o := sync_ad_chain (chain_world EPrev extra ch pub) cfg a st in
@@ -113,7 +115,7 @@ Theorem all_readable_after :
     chain_wf EPrev extra ch = true -> c_strict cfg = true ->
     resolve_hook cfg (a_hook a) = HNominate ->
     the_head a = Some (head, queried) -> In head ch ->
-    let stop := stop_table (s_latest st) (a_stop a) (a_resync a) in
+    let stop := stop_table (eff_latest cfg st) (a_stop a) (a_resync a) in
     let lim := depth_table (c_ads_depth cfg) (c_first_depth cfg) (a_depth a) stop in
     avail pub (s_store st) (segment ch head stop lim) = true ->
     forall x, In x (r_hooks (sync_ad_chain (chain_world EPrev extra ch pub) cfg a st)) ->
@@ -128,7 +130,7 @@ Theorem requests_are_exactly_missing :
     chain_wf EPrev extra ch = true -> c_strict cfg = true ->
     resolve_hook cfg (a_hook a) = HNominate ->
     the_head a = Some (head, queried) -> In head ch ->
-    let stop := stop_table (s_latest st) (a_stop a) (a_resync a) in
+    let stop := stop_table (eff_latest cfg st) (a_stop a) (a_resync a) in
     let lim := depth_table (c_ads_depth cfg) (c_first_depth cfg) (a_depth a) stop in
     avail pub (s_store st) (segment ch head stop lim) = true ->
     let o := sync_ad_chain (chain_world EPrev extra ch pub) cfg a st in
@@ -148,7 +150,7 @@ Theorem outcome_independent_of_store :
     resolve_hook cfg (a_hook a) = HNominate ->
     the_head a = Some (head, queried) -> In head ch ->
     s_latest st1 = s_latest st2 ->
-    let stop st := stop_table (s_latest st) (a_stop a) (a_resync a) in
+    let stop st := stop_table (eff_latest cfg st) (a_stop a) (a_resync a) in
     let lim st := depth_table (c_ads_depth cfg) (c_first_depth cfg) (a_depth a) (stop st) in
     avail pub (s_store st1) (segment ch head (stop st1) (lim st1)) = true ->
     avail pub (s_store st2) (segment ch head (stop st2) (lim st2)) = true ->
@@ -166,7 +168,7 @@ Theorem latest_recorded_iff_queried_head :
     chain_wf EPrev extra ch = true -> c_strict cfg = true ->
     resolve_hook cfg (a_hook a) = HNominate ->
     the_head a = Some (head, queried) -> In head ch ->
-    let stop := stop_table (s_latest st) (a_stop a) (a_resync a) in
+    let stop := stop_table (eff_latest cfg st) (a_stop a) (a_resync a) in
     let lim := depth_table (c_ads_depth cfg) (c_first_depth cfg) (a_depth a) stop in
     avail pub (s_store st) (segment ch head stop lim) = true ->
     let o := sync_ad_chain (chain_world EPrev extra ch pub) cfg a st in
@@ -215,3 +217,20 @@ Theorem walk_tree_preorder :
        (ST (s_latest st) (rev (missing (s_store st) (preorder t)) ++ s_store st)).
 Proof. exact sync_all_tree. Qed.
 Print Assumptions walk_tree_preorder.
+
+(* ---- handler removal ---- *)
+
+(* The latest sync is state of the Subscriber, not of the per-publisher handler: for every
+   call sequence, RemoveHandler / idle-cleaner steps inserted anywhere change no outcome of
+   the other calls (return, hook log, requests, event, state after) nor the final state, and
+   themselves report, request and emit nothing.  In particular the stop point of the next
+   sync is still the publisher's last synced advertisement. *)
+Theorem latest_sync_survives_handler_removal :
+  forall w cfg l st,
+    filter (fun p => negb (is_removal (fst p))) (fst (run_seq w cfg l st)) =
+      fst (run_seq w cfg (filter (fun c => negb (is_removal c)) l) st) /\
+    snd (run_seq w cfg l st) = snd (run_seq w cfg (filter (fun c => negb (is_removal c)) l) st) /\
+    (forall c o, In (c, o) (fst (run_seq w cfg l st)) -> is_removal c = true ->
+       r_hooks o = [] /\ r_reqs o = [] /\ r_event o = None).
+Proof. exact removal_steps_are_invisible. Qed.
+Print Assumptions latest_sync_survives_handler_removal.
